@@ -215,10 +215,11 @@ def _pow2(k: int):
 class SymNum:
     """Python int (z3 Int sort) or float-as-real (z3 Real sort)."""
 
-    __slots__ = ("t",)
+    __slots__ = ("t", "lz")
 
-    def __init__(self, t):
+    def __init__(self, t, lz=0):
         self.t = t
+        self.lz = lz   # number of low bits known to be zero (set by `<< k`), for disjoint `|`
 
     # -- sort ---------------------------------------------------------------
     @property
@@ -403,7 +404,7 @@ class SymNum:
             return self * pow2_sym(o)
         if k < 0:
             raise ValueError("negative shift count")
-        return SymNum(self.t * _pow2(k))
+        return SymNum(self.t * _pow2(k), lz=self.lz + k)
 
     def __rlshift__(self, o):
         self._need_int()
@@ -611,10 +612,30 @@ def _and_const(t, m: int):
     return total
 
 
+def _pow2_factor(t):
+    """k if the term is syntactically  x * 2**k  (k > 0), else 0."""
+    t = z3.simplify(t)
+    if z3.is_mul(t) and t.num_args() == 2:
+        for i in (0, 1):
+            a = t.arg(i)
+            if z3.is_int_value(a):
+                v = a.as_long()
+                if v > 1 and v & (v - 1) == 0:
+                    return v.bit_length() - 1
+    return 0
+
+
 def _bitop_sym(a: SymNum, b: SymNum, op: str, width: int = 32):
-    """a <op> b for two symbolic non-negative ints: the range 0 <= x < 2**width
-    is an emitted side obligation (checked on this path), then bitwise via bits."""
+    """a <op> b for two symbolic ints.  Disjoint bit ranges (x*2**k combined with
+    0 <= y < 2**k, proved on this path) are exact sums; otherwise both operands must be
+    provably within 0 <= x < 2**width (emitted side obligation) and bit-vectors are used."""
     c = ctx()
+    for x, y in ((a, b), (b, a)):
+        k = x.lz or _pow2_factor(x.t)
+        if k and c.proves(z3.And(y.t >= 0, y.t < _pow2(k))):
+            if op in ("or", "xor"):
+                return x.t + y.t
+            return z3.IntVal(0)
     c.require(z3.And(a.t >= 0, a.t < _pow2(width), b.t >= 0, b.t < _pow2(width)),
               "bit-op operands within 0..2**%d" % width)
     bva = z3.Int2BV(a.t, width)
